@@ -8,8 +8,15 @@ VERIF = "/verif"
 REPO = "/repo"
 CACHE = VERIF + "/.cache"
 COQ = VERIF + "/coq"
-VH = CACHE + "/target/release/vh"
-VRUN = CACHE + "/vrun"
+
+
+def VH(unit):
+    return CACHE + "/target/release/vh_" + unit
+
+
+def VRUN(unit):
+    return CACHE + "/vrun_" + unit
+
 NPROC = 16
 
 ENV = dict(os.environ, CARGO_NET_OFFLINE="true", CARGO_TARGET_DIR=CACHE + "/target")
@@ -90,32 +97,35 @@ def coq_errors(log):
     return errs
 
 
-def step_runner():
-    ok, out, dt = step_coq(["Run/Extract.vo"])
+def step_runner(unit):
+    """build Run/<Unit>Extract.vo (which writes .cache/extract/<unit>/vrun_core.ml) and the OCaml runner"""
+    tgt = "Run/%sExtract" % unit.capitalize()
+    os.makedirs(CACHE + "/extract/" + unit, exist_ok=True)
+    ok, out, dt = step_coq([tgt + ".vo"])
     if not ok:
         return False, out
-    os.makedirs(CACHE + "/extract", exist_ok=True)
-    if not os.path.exists(CACHE + "/extract/vrun_core.ml"):
+    if not os.path.exists(CACHE + "/extract/%s/vrun_core.ml" % unit):
         # .vo up to date but extraction output missing (cache wiped): force re-extraction
         for ext in (".vo", ".vok", ".vos", ".glob"):
             try:
-                os.remove(COQ + "/Run/Extract" + ext)
+                os.remove(COQ + "/" + tgt + ext)
             except FileNotFoundError:
                 pass
-        ok, out, dt = step_coq(["Run/Extract.vo"])
+        ok, out, dt = step_coq([tgt + ".vo"])
         if not ok:
             return False, out
-    with open(CACHE + "/runner.lock", "w") as lk:
+    with open(CACHE + "/runner_%s.lock" % unit, "w") as lk:
         fcntl.flock(lk, fcntl.LOCK_EX)
-        rc, out2, _ = sh([VERIF + "/runner/build.sh"], timeout=900)
+        rc, out2, _ = sh([VERIF + "/runner/build.sh", unit], timeout=900)
     return rc == 0, out + out2
 
 
-def step_harness(timeout=1500):
+def step_harness(unit, timeout=1500):
     lock = VERIF + "/harness/Cargo.lock"
     if not os.path.exists(lock) or open(lock).read() != open(REPO + "/Cargo.lock").read():
         shutil.copy(REPO + "/Cargo.lock", lock)
-    rc, out, dt = sh(["cargo", "build", "--release", "--offline", "--features", "hooks"], timeout=timeout, cwd=VERIF + "/harness")
+    rc, out, dt = sh(["cargo", "build", "--release", "--offline", "--features", "hooks", "--bin", "vh_" + unit],
+                     timeout=timeout, cwd=VERIF + "/harness")
     return rc == 0, out, dt
 
 
